@@ -245,28 +245,41 @@ func setupFile(v6 bool, args ...string) (handler.Handler6, handler.Handler4, err
 		return nil, nil, errors.New("got empty file name")
 	}
 
-	// load initial database from lease file
-	state := &pluginState{}
-	nrecords, err := state.loadFromFile(v6, filename)
-	if err != nil {
-		return nil, nil, err
-	}
-
 	// when the 'autorefresh' argument was passed, watch the lease file for
-	// changes and reload the lease mapping on any event
-	if len(args) > 1 && args[1] == autoRefreshArg {
+	// changes and reload the lease mapping on any event. The watch is set
+	// before the file is read for the first time: a change that lands between
+	// the two would otherwise never be loaded
+	var (
+		watcher *fsnotify.Watcher
+		names   map[string]bool
+		watched os.FileInfo
+	)
+	autoRefresh := len(args) > 1 && args[1] == autoRefreshArg
+	if autoRefresh {
 		// the watch follows the file, not its name: remember which file it is
 		// attached to (looked at before the watch is set: at worst an older
 		// one), to notice when the name is given to another file (rename over
 		// it, as editors and deployment tools do)
-		watched, _ := os.Stat(filename)
+		watched, _ = os.Stat(filename)
 
 		// creates a new file watcher and has it watch over lease file
-		watcher, names, err := watchFile(filename)
+		watcher, names, err = watchFile(filename)
 		if err != nil {
 			return nil, nil, err
 		}
+	}
 
+	// load initial database from lease file
+	state := &pluginState{}
+	nrecords, err := state.loadFromFile(v6, filename)
+	if err != nil {
+		if watcher != nil {
+			watcher.Close()
+		}
+		return nil, nil, err
+	}
+
+	if autoRefresh {
 		// very simple watcher on the lease file to trigger a refresh on any event
 		// on the file
 		go func() {
